@@ -294,6 +294,12 @@ def eval_trace(run, name, n, seed, pid, depth=4, shards=16, threads=1):
     path = os.path.join(tlc.WORK, "eval-trace-%s.ndjson" % name)
     core.run_vh(["eval-record", "--seed", seed, "--n", n, "--depth", depth, "--out", path] + (["--threads", threads] if threads > 1 else []), timeout=1800)
     recs = core.read_ndjson(path)
+    # a worker thread that died (a panic outside the guarded evaluation, e.g. on a poisoned engine lock) leaves its cases without a record
+    lost = sum(1 for r in recs if r.get("lost"))
+    if lost:
+        run.violation("%s/eval/lost" % pid, "%d recorded evaluations never produced an outcome: the thread evaluating them died (an engine lock poisoned or held?)" % lost,
+                      {"family": "eval-trace", "lost": lost})
+        recs = [r for r in recs if not r.get("lost")]
     parts, k = core.shard(recs, shards)
     files = []
     for i, part in enumerate(parts):
